@@ -264,7 +264,7 @@ def check(pid, tier):
         replays.append(rp)
         lines.append("VIOLATION property=%s replay=%s sig=%s count=%d" % (pid, rp, sig, d["n"]))
         det = json.dumps(ex.get("detail"), default=str)
-        lines.append("  detail: " + det[:1200])
+        lines.append("  detail: " + det[:500])
 
     wall = time.time() - t0
     cov = {
